@@ -117,14 +117,18 @@ inductive Val where
 
 abbrev Card := List (String × Val)
 
-def Card.get? (c : Card) (k : String) : Option Val := (c.find? fun kv => kv.1 == k).map (·.2)
+def Card.get? : Card → String → Option Val
+  | [], _ => none
+  | (k, v) :: rest, key => if k = key then some v else Card.get? rest key
 
-def Card.erase (c : Card) (k : String) : Card := c.filter fun kv => kv.1 != k
+def Card.erase : Card → String → Card
+  | [], _ => []
+  | (k', v') :: rest, k => if k' = k then Card.erase rest k else (k', v') :: Card.erase rest k
 
 /-- `d[k] = v`: replace in place when present, append otherwise (Python dict order) -/
-def Card.set (c : Card) (k : String) (v : Val) : Card :=
-  if c.any (fun kv => kv.1 == k) then c.map fun kv => if kv.1 == k then (k, v) else kv
-  else c ++ [(k, v)]
+def Card.set : Card → String → Val → Card
+  | [], k, v => [(k, v)]
+  | (k', v') :: rest, k, v => if k' = k then (k, v) :: rest else (k', v') :: Card.set rest k v
 
 def hqfl : List String := ["c", "b", "t"]
 
@@ -132,37 +136,65 @@ inductive UpdErr where
   | unknownScheme | unknownTarget | missingKey
   deriving DecidableEq, Repr
 
-/-- `update_fns(theory)` -/
-def updateFnsCard (t : Card) : Except UpdErr Card := do
-  let fns ← match t.get? "FNS" with
-    | some (.str s) => (match Scheme.ofString? s with | some x => pure x | none => throw .unknownScheme)
-    | _ => throw .missingKey
-  let nfff ← match t.get? "NfFF" with
-    | some (.num r) => pure r.num.toNat
-    | _ => throw .missingKey
-  let mut t := t
-  for k in [0, 1, 2] do
-    let fl := hqfl.getD k ""
-    let (kt, zm) := updateFns fns nfff k
-    match kt with
-    | .keep => pure ()
-    | .zero => t := t.set s!"k{fl}Thr" (.num 0)
-    | .inf => t := t.set s!"k{fl}Thr" .inf
-    match zm with
-    | some b => t := t.set s!"ZM{fl}" (.bool b)
-    | none => pure ()
+/-- the two writes `update_fns` does for heavy flavour `k` -/
+def setFlavour (fns : Scheme) (nfff : Nat) (k : Nat) (t : Card) : Card :=
+  let fl := hqfl.getD k ""
+  let t := match (updateFns fns nfff k).1 with
+    | .keep => t
+    | .zero => t.set ("k" ++ fl ++ "Thr") (.num 0)
+    | .inf => t.set ("k" ++ fl ++ "Thr") .inf
+  match (updateFns fns nfff k).2 with
+  | some b => t.set ("ZM" ++ fl) (.bool b)
+  | none => t
+
+/-- `if "PTODIS" not in theory or theory["PTODIS"] is None: theory["PTODIS"] = theory["PTO"]` -/
+def setPtodis (t : Card) : Card :=
   match t.get? "PTODIS" with
-  | some .none | none => t := t.set "PTODIS" ((t.get? "PTO").getD .none)
-  | _ => pure ()
+  | some .none | none => t.set "PTODIS" ((t.get? "PTO").getD .none)
+  | _ => t
+
+/-- `if "FONLLParts" not in theory or …is None: theory["FONLLParts"] = "full"` -/
+def setFonll (t : Card) : Card :=
   match t.get? "FONLLParts" with
-  | some .none | none => t := t.set "FONLLParts" (.str "full")
-  | _ => pure ()
-  pure t
+  | some .none | none => t.set "FONLLParts" (.str "full")
+  | _ => t
+
+/-- the defaults `update_fns` fills in at its end -/
+def setDefaults (t : Card) : Card := setFonll (setPtodis t)
+
+/-- `update_fns(theory)` -/
+def updateFnsCard (t : Card) : Except UpdErr Card :=
+  match t.get? "FNS", t.get? "NfFF" with
+  | some (.str s), some (.num r) =>
+    match Scheme.ofString? s with
+    | some fns =>
+      let nfff := r.num.toNat
+      .ok (setDefaults (setFlavour fns nfff 2 (setFlavour fns nfff 1 (setFlavour fns nfff 0 t))))
+    | none => .error .unknownScheme
+  | _, _ => .error .missingKey
+
+def setRen (t : Card) : Card :=
+  if (t.get? "RenScaleVar").isNone then t.set "RenScaleVar" (.bool true) else t
+def setFact (t : Card) : Card :=
+  if (t.get? "FactScaleVar").isNone then t.set "FactScaleVar" (.bool true) else t
 
 /-- `update_scale_variations(theory)` -/
-def updateSV (t : Card) : Card :=
-  let t := if (t.get? "RenScaleVar").isNone then t.set "RenScaleVar" (.bool true) else t
-  if (t.get? "FactScaleVar").isNone then t.set "FactScaleVar" (.bool true) else t
+def updateSV (t : Card) : Card := setFact (setRen t)
+
+/-- `if "alphaqed" in new_theory: new_theory["alphaem"] = new_theory.pop("alphaqed")` -/
+def moveAlpha (t : Card) : Card :=
+  match t.get? "alphaqed" with
+  | some v => (t.erase "alphaqed").set "alphaem" v
+  | none => t
+
+/-- `if "QED" in new_theory: new_theory["order"] = (new_theory["PTO"] + 1, new_theory.pop("QED"))` -/
+def moveQED (t : Card) : Card :=
+  match t.get? "QED" with
+  | some (.num q) =>
+    let pto := match t.get? "PTO" with | some (.num p) => p | _ => 0
+    (t.erase "QED").set "order" (.pair (.num (pto + 1)) (.num q))
+  | some v => (t.erase "QED").set "order" (.pair .none v)
+  | none => t
 
 /-- `update_target(obs)`; a non-string `TargetDIS` is left alone -/
 def updateTarget (o : Card) : Except UpdErr Card :=
@@ -176,19 +208,10 @@ def updateTarget (o : Card) : Except UpdErr Card :=
   | none => throw .missingKey
 
 /-- `compatibility.update(theory, observables)` -/
-def update (t o : Card) : Except UpdErr (Card × Card) := do
-  let t ← updateFnsCard t
-  let t := updateSV t
-  let o ← updateTarget o
-  let t := match t.get? "alphaqed" with
-    | some v => (t.erase "alphaqed").set "alphaem" v
-    | none => t
-  let t := match t.get? "QED" with
-    | some (.num q) =>
-      let pto := match t.get? "PTO" with | some (.num p) => p | _ => 0
-      (t.erase "QED").set "order" (.pair (.num (pto + 1)) (.num q))
-    | some v => (t.erase "QED").set "order" (.pair .none v)
-    | none => t
-  pure (t, o)
+def update (t o : Card) : Except UpdErr (Card × Card) :=
+  match updateFnsCard t, updateTarget o with
+  | .ok t1, .ok o1 => .ok (moveQED (moveAlpha (updateSV t1)), o1)
+  | .error e, _ => .error e
+  | _, .error e => .error e
 
 end Yadism
